@@ -88,7 +88,13 @@ def char_in(interp, cls, container):
         return Unknown('in-union')
     if isinstance(container, UnicodeCategorySet):
         if cls == 'upunct':
-            return container.prefix == 'P'
+            pcats = frozenset(c for c in container.categories if c.startswith('P'))
+            allp = frozenset(c for c in ('Pc', 'Pd', 'Ps', 'Pe', 'Pi', 'Pf', 'Po'))
+            if pcats == allp:
+                return True
+            if not pcats:
+                return False
+            return Unknown('the set holds only some punctuation categories: %s' % sorted(pcats))
         if cls == 'apunct':
             if container.prefix == 'P':
                 return Unknown('ascii punctuation is split by category P')
@@ -135,7 +141,7 @@ class FlankString(AbstractValue):
 def UnicodeCat_contains(self, interp, item):
     import unicodedata
     if isinstance(item, str) and len(item) == 1:
-        return unicodedata.category(item).startswith(self.prefix)
+        return unicodedata.category(item) in self.categories
     if isinstance(item, AbsChar):
         return char_in(interp, item.cls, self)
     return Unknown('in-cat')
@@ -225,7 +231,7 @@ def rule_flank_sets(ctx, rep):
             if isinstance(part, (set, frozenset)):
                 lits |= set(part)
             elif isinstance(part, UnicodeCategorySet):
-                cats.append(part.prefix)
+                cats.append(part.prefix or ','.join(sorted(part.categories)))
         ok = flanking.ASCII_PUNCT <= lits and cats == ['P'] and all(
             (c in flanking.ASCII_PUNCT) for c in lits)
         detail = {'ascii_missing': sorted(flanking.ASCII_PUNCT - lits), 'extra_literals': sorted(lits - flanking.ASCII_PUNCT),
